@@ -400,8 +400,8 @@ FAMILIES = {
     # four classes (diamonds): pair rule along the C3 MRO / Media through two paths
     "attr4": {"quick": (dict(maxn=4, lists="ListsNone", kinds="KindsNone", attrs="AttrsFew"), 1500, 2),
               "thorough": (dict(maxn=4, lists="ListsNone", kinds="KindsNone", attrs="AttrsFew"), None, 8)},
-    "media4": {"quick": (dict(maxn=4, lists="ListsTiny", kinds="KindsBasic", exts="ExtsTF", trim=True), 1000, 2),
-               "thorough": (dict(maxn=4, lists="ListsTiny", kinds="KindsBasic", exts="ExtsTF", trim=True), 12000, 8)},
+    "media4": {"quick": (dict(maxn=4, lists="ListsPos", kinds="KindsBasic", exts="ExtsTF"), 1500, 2),
+               "thorough": (dict(maxn=4, lists="ListsPos", kinds="KindsBasic", exts="ExtsTF"), None, 8)},
     # component-relative files, media read before / after template, js, css (every second run
     # contradicts the specification here and has to be explained by TLC, hence the caps)
     "rel": {"quick": (dict(maxn=2, lists="ListsRel", kinds="KindsBasic", attrs="AttrsFew", rel="Rel1"), 1000, 2),
@@ -806,6 +806,8 @@ def selftest(tier: str) -> int:
         ("base-files-replace-own-files",
          media_probe(("media = media_cls(js=merged_media._js, css=merged_media._css)",
                       "media = media_cls(js=base_media._js or merged_media._js, css=merged_media._css)"))),
+        ("own-js-list-reversed",
+         media_probe(('media_js = getattr(media_input, "js", [])', 'media_js = list(reversed(getattr(media_input, "js", [])))'))),
         ("pair-rule-dropped (nearest non-null value of the attribute itself)",
          attr_probe(('if attr in ("js", "js_file"):', "if False:"), ('if attr in ("css", "css_file"):', "if False:"),
                     ('if attr in ("template", "template_file"):', "if False:"))),
